@@ -1,6 +1,6 @@
 PROPERTY = "C03"
 LEVEL = "proof"
-LEAN_MODULES = ["CifModel.Props.C03", "CifModel.Props.C03Extra", "CifModel.Lemmas.ParserTop", "CifModel.Lemmas.ParserQuiet", "CifModel.Lemmas.ParserConsistent", "CifModel.Lemmas.ParserRect", "CifModel.Lemmas.ParserStore", "CifModel.Props.C03Store", "CifModel.Model.ParserTrace", "CifModel.Model.ParserStoreOps", "CifModel.Lemmas.ParserTrace", "CifModel.Lemmas.ParserStoreOps", "CifModel.Lemmas.ParserDetProd", "CifModel.Lemmas.ParserDetLex", "CifModel.Lemmas.ParserDet", "CifModel.Props.ReviewC03"]
+LEAN_MODULES = ["CifModel.Props.C03", "CifModel.Props.C03Extra", "CifModel.Lemmas.ParserTop", "CifModel.Lemmas.ParserQuiet", "CifModel.Lemmas.ParserConsistent", "CifModel.Lemmas.ParserRect", "CifModel.Lemmas.ParserStore", "CifModel.Props.C03Store", "CifModel.Model.ParserTrace", "CifModel.Model.ParserStoreOps", "CifModel.Lemmas.ParserTrace", "CifModel.Lemmas.ParserValues", "CifModel.Lemmas.ParserStoreOps", "CifModel.Lemmas.ParserDetProd", "CifModel.Lemmas.ParserDetLex", "CifModel.Lemmas.ParserDet", "CifModel.Props.ReviewC03"]
 REQUIRED = ["CifModel.C03_total", "CifModel.C03_clamp", "CifModel.C03_report_site", "CifModel.C03_prefix_determinism", "CifModel.C03_result",
             "CifModel.C03_reported_partial", "CifModel.C03_reported", "CifModel.C03_reported_full", "CifModel.Model.Parser.parseInternal_die", "CifModel.C03_consistent_after", "CifModel.C03_consistent_after_fresh",
             "CifModel.C03_consistent_iff", "CifModel.C03_consistent_container", "CifModel.C03_packets_rectangular", "CifModel.C03_rectangular_iff", "CifModel.C03_rectangular_container", "CifModel.Model.Parser.parse_okR", "CifModel.Model.Parser.packetsLoop_presR",
